@@ -282,6 +282,11 @@ func (c *checker) leaderCommit(s *server, key instKey, e *sim.Ev) {
 	if s.burned > from {
 		from = s.burned
 	}
+	// what the leader's snapshot covers is applied state; log entries still lying below it say
+	// nothing (they can be a stale suffix that survived a snapshot install: known finding S3a)
+	if si := s.disk.maxSnapIndex(); si > from {
+		from = si
+	}
 	for i := from + 1; i <= nw; i++ {
 		if en, ok := s.disk.logs[i]; ok {
 			c.addG(i, en, e.Seq, "leader-commit "+key.String(), "C03")
